@@ -17,7 +17,7 @@ MCNext ==
   \/ \E i \in 1..MaxV : \E b \in BOOLEAN : SetFixed(i, b)
   \/ DoSetPose
   \/ DoSetMeas
-  \/ \E r \in BOOLEAN : \E np \in [DOMAIN verts -> Tokens] : Reload(r, np, [n \in DOMAIN edges |-> 0])
+  \/ \E r \in BOOLEAN, keep \in BOOLEAN : \E np \in [DOMAIN verts -> Tokens] : Reload(r, keep, np, [n \in DOMAIN edges |-> 0])
   \/ \E m \in 1..MaxIterMC : \E ff \in BOOLEAN : \E st \in [1..m -> BOOLEAN] : \E np \in [DOMAIN verts -> Tokens] : OptCall(m, ff, TRUE, st, np)
 MCSpec == Init /\ [][MCNext]_vars
 \* model mutant (vacuity guard): an optimizer that also updates fixed vertices must violate FixedFrozen
